@@ -29,6 +29,8 @@ CHECKS = {
          TECH + "; conservation invariants evaluated in quiescent final states"),
  "C05": ("exploration", "Seeded exploration of 1-6 simultaneous relayed connections (shared 16 KiB buffer pool) with keyed byte streams of 0 to 5x16 KiB+1 bytes (2 MiB in the thorough tier) in both directions, arbitrary chunking and pacing, socket buffers from 1 byte to 256 KiB (back-pressure), delivery fragmentation, and every finishing order (client half-closes first, backend first, both at once, one side closes completely, a direction carrying zero bytes); oracle at every step: what a receiver has read is a prefix of what its sender sent (streams are keyed by connection, so cross-talk is a prefix violation), end-of-stream only after the sender finished and after its last byte; at the end both directions are complete and every half-close was propagated.", "4.C05",
          TECH + "; byte-stream equality and end-of-stream placement oracles"),
+ "C09": ("fault_enumeration", "For base runs of Redis and TCP services (0-4 connections, requests or streams in flight, 0-3 injected listen failures before the bind succeeds, temporary accept errors, responsive / silent / refusing backends), Stop or StopListen is injected before every scheduler step from the return of Start() on (same schedule prefix), plus random runs incl. drain-then-stop and connection-limit bursts; oracle: Stop/StopListen return within 10 simulated minutes; once Stop has returned and the system is quiescent the listening port is closed, every connection handed to the service (downstream and upstream) is closed and no goroutine spawned under the service is alive; after StopListen returned a new arrival is not served while established connections keep being served; never more than the limit of connections are served concurrently and exactly min(limit, arrivals) are served when none closes.", "4.C09",
+         TECH + "; systematic injection of stop/drain before every step of base schedules"),
 }
 NA = {
 }
